@@ -87,6 +87,17 @@ PROPS = {
                 "and may leave 'dirt' (interruption disabled, an exit callback) for the next user of its thread object.",
         "required_probes": ["resumed_on_another_worker", "left_interruption_disabled", "canary_tasks"],
     },
+    "C20": {
+        "quick_runs": 4000, "thorough_runs": 250000, "seed": 20000001,
+        "rule": "C20 programs: all 32 completion modes (handler method x inline request x inline completion x high priority), with "
+                "and without the dedicated polling pool, 1-24 outstanding self-addressed MPI_Irecv/MPI_Isend pairs (1 B - 4 KiB, "
+                "per-message pattern) and MPI_Ibcast through transform_mpi in 1-3 batches, each inside its own enable_polling scope "
+                "and followed by pika::wait(); the simulated transport completes requests after drawn delays, out of order and in bursts.",
+        "required_probes": ["batch", "requests", "mpi_pool", "no_mpi_pool", "mode0", "mode8", "mode16", "mode30"],
+        "stubbed": ["the MPI library: libpikasim defines MPI_Init_thread/Isend/Irecv/Ibcast/Test/Testany/Testsome/... as a single-rank "
+                    "simulated transport (requests complete after drawn virtual delays, receive buffers are written at completion only); "
+                    "the real libmpi is loaded but never initialised"],
+    },
     "C13": {
         "quick_runs": 6000, "thorough_runs": 400000, "seed": 13000001,
         "kf_subs": {"kf_shared_priority": 32, "kf_yield_noexcept": 16},
